@@ -310,7 +310,7 @@ pub fn project_configs(quick: bool) -> Vec<ProjCfg> {
         ProjCfg { name: "valid:ts5+resolvers+server", mode: 0, runtime: false, model_plugin: false, faults: &[], commands: &["check", "generate"], format: "json", multi_glob: false },
         ProjCfg { name: "valid:standalone+runtime", mode: 2, runtime: true, model_plugin: false, faults: &[], commands: &["generate"], format: "human", multi_glob: false },
         ProjCfg { name: "valid:ts4+model-plugin+multi-glob", mode: 1, runtime: false, model_plugin: true, faults: &[], commands: &["check", "generate"], format: "json", multi_glob: true },
-        ProjCfg { name: "faulty:three-operation-files", mode: 0, runtime: false, model_plugin: false, faults: &["op.unknown-field.simple", "op.unknown-field.other", "op.scalar-selection.spaced", "op.variable-type-mismatch.main"], commands: &["check"], format: "json", multi_glob: false },
+        ProjCfg { name: "faulty:three-operation-files", mode: 0, runtime: false, model_plugin: false, faults: &["op.unknown-field.simple", "op.unknown-field.other", "op.two-diagnostics-at-one-position.other", "op.scalar-selection.spaced", "op.variable-type-mismatch.main"], commands: &["check"], format: "json", multi_glob: false },
         ProjCfg { name: "faulty:schema-three-errors", mode: 0, runtime: false, model_plugin: false, faults: &["schema.unknown-type.main", "schema.unknown-type.ext", "schema.unknown-directive.main"], commands: &["check"], format: "rdjson", multi_glob: false },
     ];
     if !quick {
